@@ -361,11 +361,13 @@ def _compositions(rng, n, maxparts=3):
     return [b - a for a, b in zip([0] + cuts, cuts + [n])]
 
 
-def gen_v4cal(rng, tier='quick', force=None):
+def gen_v4cal(rng, tier='quick', force=None, fixed=None):
     force = force or {}
     n_ant = rng.choice([2, 2, 3])
-    ants = ['m%03d' % a for a in range(n_ant)]
     T, F = rng.randint(3, 5), rng.randint(4, 8)
+    if fixed:       # a member of a concatenation: sizes are given
+        n_ant, T, F = fixed.get('n_ant', n_ant), fixed.get('T', T), fixed.get('F', F)
+    ants = ['m%03d' % a for a in range(n_ant)]
     calmode = force.get('calmode') or rng.choice(['none', 'G', 'G', 'GB', 'GB', 'B'])
     want_nan = force.get('nan', rng.random() < 0.85)
     pols = rng.choice([['h', 'v'], ['v', 'h']])
@@ -565,29 +567,44 @@ def _bit_names(diff):
     return '+'.join(names) or 'none'
 
 
-def run_v4cal(ctx, cfg):
-    from fixtures import c13cal
-    T, F, ants = cfg['T'], cfg['F'], cfg['ants']
-    bls = v4.bls_ordering_for(ants)
+def _v4cal_bls(cfg):
+    bls = v4.bls_ordering_for(cfg['ants'])
     if cfg.get('shuffle_bls'):
         import random
         random.Random(cfg['seed']).shuffle(bls)
+    return bls
+
+
+def open_v4cal(cfg, tmp, **kw):
+    """The v4 data set of a v4cal configuration (stored flag bytes, chunking, lost chunks, cal products, applycal)."""
+    from fixtures import c13cal
+    T, F, ants = cfg['T'], cfg['F'], cfg['ants']
+    bls = _v4cal_bls(cfg)
     B = len(bls)
     rs = np.random.RandomState(cfg['seed'])
     fl = rs.randint(0, 256, size=(T, F, B)).astype(np.uint8)
     fl[0, :, :B // 2] = 0                  # clean samples
     fl[-1] &= np.uint8(0x77)               # samples that get data_lost / postproc only by derivation
     chunks = {k: (tuple(c[0]), tuple(c[1])) + (((B,),) if k != 'weights_channel' else ()) for k, c in cfg['chunks'].items()}
-    hook = c13cal.cal_hook(_cal_telstate(cfg)) if cfg['applycal'] else None
+    hook = None
+    if cfg['applycal']:
+        hook = c13cal.cal_hook(_cal_telstate(cfg), **({'first_timestamp': kw['first_timestamp']} if 'first_timestamp' in kw else {}))
+    return v4.build_v4(T=T, F=F, ants=ants, seed=cfg['seed'], arrays={'flags': fl}, chunks=chunks,
+                       bandwidth=F * 1048576.0, center_freq=1284e6, bls_ordering=bls,
+                       lose=[('sdp_l0', n, tuple(i) + ((0,) if n != 'weights_channel' else ())) for n, i in cfg['lose']],
+                       telstate_hook=hook, archived_override=['sdp_l0', 'cal'] if hook else None,
+                       open_kwargs=dict(applycal=list(cfg['applycal'])), tmp=tmp, **kw)
+
+
+def run_v4cal(ctx, cfg):
+    T, F, ants = cfg['T'], cfg['F'], cfg['ants']
+    bls = _v4cal_bls(cfg)
+    B = len(bls)
     x = None
     key = ('v4cal', cfg['seed'], T, F, len(ants), cfg['calmode'])
     try:
         try:
-            x = v4.build_v4(T=T, F=F, ants=ants, seed=cfg['seed'], arrays={'flags': fl}, chunks=chunks,
-                            bandwidth=F * 1048576.0, center_freq=1284e6, bls_ordering=bls,
-                            lose=[('sdp_l0', n, tuple(i) + ((0,) if n != 'weights_channel' else ())) for n, i in cfg['lose']],
-                            telstate_hook=hook, archived_override=['sdp_l0', 'cal'] if hook else None,
-                            open_kwargs=dict(applycal=list(cfg['applycal'])), tmp=v4.scratch_dir('c16cal'))
+            x = open_v4cal(cfg, v4.scratch_dir('c16cal'))
             d = x.d
             if cfg['applycal'] and sorted(d.applycal_products) != sorted(cfg['applycal']):
                 ctx.disagree('stream=v4cal;what=products_dropped', dict(stream='v4cal', cfg=cfg),
@@ -791,8 +808,18 @@ def gen_concat(rng, tier='quick', force=None):
         hist.append(st)
     if force:
         hist = [dict(s) for s in CONCAT_FIXED] + hist[:3]
+    cal = [None] * k
+    if set(fmts) == {'v4'}:
+        # v4 members with their own calibration products applied and lost chunks of any of the four arrays
+        for n in range(k):
+            if rng.random() < (0.75 if force else 0.4):
+                sub = gen_v4cal(rng, tier, force=dict(calmode=rng.choice(['G', 'GB', 'B']), nan=True, lose=True),
+                                fixed=dict(n_ant=2, T=T[n], F=F))
+                sub.pop('hist')
+                sub['shuffle_bls'] = False
+                cal[n] = sub
     return dict(stream='concat', fmts=fmts, T=T, F=F, seed=rng.randrange(10 ** 6), pre=pre, order=order, hist=hist,
-                lose=[f == 'v4' and rng.random() < 0.6 for f in fmts],
+                cal=cal, lose=[f == 'v4' and rng.random() < 0.6 for f in fmts],
                 index=[rng.choice([None, None, 2]), rng.choice([None, None, 2])])
 
 
@@ -809,15 +836,28 @@ def build_concat(cfg, tmp):
     members = []
     for n, fmt in enumerate(fmts):
         T = cfg['T'][n]
-        B = 12 if (fmt == 'v4' and not mixed) else 10
+        # mixed: one antenna (the v3 and v4 writers describe m000 identically), so that all members share the subarray
+        ants = ('m000',) if mixed else (('ant1', 'ant2') if fmt == 'v2' else ('m000', 'm001'))
+        B = 3 if mixed else (12 if fmt == 'v4' else 10)
         rs = np.random.RandomState(cfg['seed'] + 7 * n)
         fl = rs.permutation((np.arange(T * F * B) * 37 + 11 * n) % 256).astype(np.uint8).reshape(T, F, B)
-        fl[0, 0, :8] = 1 << np.arange(8)                 # every single-bit byte occurs in every member
-        if fmt == 'v4':
-            kw = dict(T=T, F=F, seed=cfg['seed'] + n, arrays={'flags': fl}, cbid='16%08d' % n,
-                      first_timestamp=100.0 + 1000.0 * n, tmp=os.path.join(tmp, 'p%d' % n))
+        fl.reshape(-1)[:8] = 1 << np.arange(8)           # every single-bit byte occurs in every member
+        sub = (cfg.get('cal') or [None] * len(fmts))[n]
+        if fmt == 'v4' and sub is not None:
+            x = open_v4cal(sub, os.path.join(tmp, 'p%d' % n), cbid='16%08d' % n, first_timestamp=100.0 + 1000.0 * n)
+            e = v4cal_expected(sub, x.stored, _v4cal_bls(sub))
+            # what the member must expose: stored byte (nothing where the flags chunk is lost) | data_lost | postproc
+            raw = (np.where(e['lostf'], 0, e['stored']) | np.where(e['lostf'] | e['lostv'] | e['lostw'], 8, 0)
+                   | np.where(e['calok'], 0, 128)).astype(np.uint8)
+            members.append((x.d, raw, None))
+        elif fmt == 'v4':
+            kw = dict(T=T, F=F, seed=cfg['seed'] + n, arrays={'flags': fl}, cbid='16%08d' % n, ants=ants,
+                      first_timestamp=100.0 + 1000.0 * n, tmp=os.path.join(tmp, 'p%d' % n),
+                      bandwidth=F * 1048576.0, center_freq=1284e6)        # the spectral window of the v4cal members
             if mixed:
-                kw['bls_ordering'] = _h5_cps(('m000', 'm001'))
+                kw['bls_ordering'] = _h5_cps(ants)
+                kw['bandwidth'] = 856e6 / 4096 * F                           # the spectral window of the v3 writer
+                kw['sub_product'] = ''
             raw = fl.copy()
             if cfg['lose'][n]:
                 kw['chunks'] = {'correlator_data': (1, F, B)}
@@ -829,7 +869,7 @@ def build_concat(cfg, tmp):
             os.makedirs(os.path.join(tmp, 'h5'), exist_ok=True)
             if fmt == 'v3':
                 d, _, _ = h5.open_v3(os.path.join(tmp, 'h5'), name='15%08d.h5' % n, T=T, F=F, flags=fl, seed=cfg['seed'] + n,
-                                     t0=1500000000.0 + 1000.0 * n)
+                                     t0=1500000000.0 + 1000.0 * n, ants=ants, open_kwargs=dict(band='l'))
             else:
                 d, _, _ = h5.open_v2(os.path.join(tmp, 'h5'), name='13%08d.h5' % n, T=T, F=F, flags=fl, seed=cfg['seed'] + n,
                                      t0=1300000000.0 + 1000.0 * n)
@@ -888,6 +928,8 @@ def run_concat(ctx, cfg):
             c = ConcatenatedDataSet([members[i][0] for i in cfg['order']])
             if [id(d) for d in c.datasets] != [id(m[0]) for m in members]:
                 raise RuntimeError('members are not in time order')
+            if len(c.spectral_windows) != 1 or len(c.subarrays) != 1 or c.shape[0] != sum(cfg['T']):
+                raise RuntimeError('fixture: the members do not share one subarray / spectral window: %r' % (c.shape,))
         except Exception as e:
             ctx.disagree('stream=concat;fmts=%s;what=open_raises;exc=%s' % (ftag, type(e).__name__),
                          dict(stream='concat', cfg=dict(cfg, hist=[])), repr(e)[:300], 'a data set',
@@ -1029,6 +1071,7 @@ def run_concat(ctx, cfg):
             ctx.count('concat:sel=%s' % _sel_class(cur_f))
             ctx.count('concat:last_call=%s' % ('construction' if i < 0 else ('member' if on_member else 'whole')))
         ctx.count('concat:fmts=%s' % '+'.join(fmts))
+        ctx.count('concat:members_with_applycal', sum(1 for x in (cfg.get('cal') or []) if x))
     finally:
         for _, _, f in members:
             try:
